@@ -7,7 +7,9 @@ Definition dec_act (x : sx) : option act :=
   match x with
   | SL [SZ 0; SZ i] => Some (ARegister (Z.to_N i))
   | SL [SZ 1; SZ c] => Some (AUnregister (Z.to_nat c))
-  | SL [SZ 2; SZ i; SZ v] => Some (AArrive (Z.to_N i, Z.to_N v))
+  | SL [SZ 2; SZ i; SZ v] => Some (AArrive (result (Z.to_N i) (Z.to_N v)))
+  | SL [SZ 2; SZ i; SZ v; SZ q] =>      (* q = 1: a get/set request, else a result/error response *)
+      Some (AArrive (if Z.eqb q 1 then request (Z.to_N i) (Z.to_N v) else result (Z.to_N i) (Z.to_N v)))
   | SL [SZ 3; SZ k] => Some (ARouter (Z.to_nat k))
   | SL [SZ 4; SZ c] => Some (ARecv (Z.to_nat c))
   | SL [SZ 5; SZ c] => Some (ACancel (Z.to_nat c))
@@ -15,10 +17,13 @@ Definition dec_act (x : sx) : option act :=
   | _ => None
   end.
 
+(* an IQ as the harness reports it: its id, plus 100 for a request (get/set) *)
+Definition iq_sx (v : resp) : sx := SN (if rreq v then 100 + rid v else rid v)%N.
+
 Definition chan_sx (ch : chst) : sx :=
   (* what the requester can see: ids of the values read, and for a channel that got
      its value whether it was closed afterwards *)
-  SL [SL (map (fun v => SN (fst v)) (c_got ch));
+  SL [SL (map iq_sx (c_got ch));
       SB (match c_got ch with [] => false | _ => c_closed ch end)].
 
 Fixpoint count_blocked (s : cst) (n : nat) : nat :=
@@ -31,7 +36,7 @@ Definition unfinished (s : cst) : nat :=
 
 Definition run_typed (l : list act) : sx :=
   let s := c_run c_init l in
-  SL [SB (panicked s); SL (map chan_sx (chans s)); SL (map (fun v => SN (fst v)) (ordinary s));
-      Snat (unfinished s)].
+  SL [SB (panicked s); SL (map chan_sx (chans s)); SL (map iq_sx (ordinary s));
+      Snat (unfinished s); SL (map Snat (refused s))].
 
 Definition run_C07 : sx -> sx := with_input (as_list dec_act) run_typed.
